@@ -141,7 +141,8 @@ pub fn run(seed: u64, count: usize, outdir: &str) -> std::io::Result<i32> {
             }
         }
         if il.is_empty() { il.push_str("no-image"); }
-        let small = (c.w as usize) * (c.h as usize) * (c.d as usize) <= 12000 && g.ctx.len() <= 120;
+        let root_tile = { let m = c.w.max(c.h) as usize; let i = c.tiles.iter().position(|t| *t < m).unwrap_or(c.tiles.len()).saturating_sub(1); c.tiles[i] };
+        let small = (c.w as usize) * (c.h as usize) * (c.d as usize) <= 12000 && g.ctx.len() <= 120 && root_tile <= 32;
         if small {
             let mut wl = format!("c07 {} {}", crate::wire::fmt_arena(&g.ctx, &[]), g.root.verif_index());
             for i in 0..4 { for j in 0..4 { write!(wl, " {}", canon_bits(m4[(i, j)])).unwrap(); } }
